@@ -94,8 +94,13 @@ func (r *verifRig) verifEvent(name string, T int, maxS int) *Message {
 	case 3:
 		verifCase("resendrequest")
 		m = r.inbound("2", S)
-		m.Body.SetInt(tagBeginSeqNo, ndInt(name+".begin", 0, 9))
-		m.Body.SetInt(tagEndSeqNo, ndInt(name+".end", 0, 9))
+		if ndBool(name + ".without-range") {
+			// a damaged ResendRequest: looked at whatever its number, then rejected for the missing field
+			verifCase("no-range")
+		} else {
+			m.Body.SetInt(tagBeginSeqNo, ndInt(name+".begin", 0, 9))
+			m.Body.SetInt(tagEndSeqNo, ndInt(name+".end", 0, 9))
+		}
 	case 4:
 		verifCase("sequencereset")
 		m = r.inbound("4", S)
